@@ -396,7 +396,7 @@ func (g *c11Gen) stmts(m *amlObj, methods, datas []c11Sym, depth int, inDeferred
 	n := rapid.IntRange(0, 4).Draw(g.t, "nstmts")
 	var out []amlStmt
 	for i := 0; i < n; i++ {
-		k := rapid.SampledFrom([]string{"store", "store", "expr", "expr", "return", "inc", "if", "while", "binop"}).Draw(g.t, "stmtk")
+		k := rapid.SampledFrom([]string{"store", "store", "expr", "expr", "return", "inc", "if", "while", "binop", "misc", "misc"}).Draw(g.t, "stmtk")
 		if depth >= 2 && (k == "if" || k == "while") {
 			k = "store"
 		}
@@ -421,14 +421,47 @@ func (g *c11Gen) stmts(m *amlObj, methods, datas []c11Sym, depth int, inDeferred
 			s.E = g.expr(m, methods, datas, 0)
 		case "inc":
 			s.T = g.target(false)
+		case "misc":
+			g.stats.miscStmts++
+			mk := rapid.SampledFrom([]string{"noop", "breakpoint", "sleep", "stall", "decrement", "notify", "acquire", "release", "reset", "signal", "wait", "break", "continue"}).Draw(g.t, "misck")
+			super := func() *amlExpr { // a SuperName: local, or a visible named object
+				if len(datas) > 0 && rapid.Bool().Draw(g.t, "supername") {
+					return &amlExpr{K: "ref", Name: datas[rapid.IntRange(0, len(datas)-1).Draw(g.t, "supern")].name}
+				}
+				return g.target(false)
+			}
+			switch mk {
+			case "noop", "breakpoint":
+				s.K = mk
+			case "break", "continue":
+				if inDeferred {
+					s.K = mk
+				} else {
+					s.K = "noop"
+				}
+			case "sleep", "stall":
+				s.K, s.Op, s.E = "term1", mk, g.expr(m, methods, datas, 1)
+			case "decrement", "release", "reset", "signal":
+				s.K, s.Op, s.E = "term1", mk, super()
+			case "notify", "wait":
+				s.K, s.T, s.E = mk, super(), g.expr(m, methods, datas, 1)
+			case "acquire":
+				s.K, s.T, s.V = mk, super(), rapid.Uint16().Draw(g.t, "timeout")
+			}
 		case "if":
 			c := g.cmp(m, methods, datas)
 			s.E = &c
 			s.W = g.width()
 			s.Body = g.stmts(m, methods, datas, depth+1, inDeferred)
-			if len(s.Body) == 0 && !g.allowEmptyIf {
+			real := 0
+			for _, b := range s.Body {
+				if b.K != "noop" { // the parser drops Noop, so a body of Noops is an empty body
+					real++
+				}
+			}
+			if real == 0 && !g.allowEmptyIf {
 				vlib.For("C11").Exclude("F-C11c If with an empty body given one statement")
-				s.Body = []amlStmt{{K: "inc", T: g.target(false)}}
+				s.Body = append(s.Body, amlStmt{K: "inc", T: g.target(false)})
 			}
 			if rapid.Bool().Draw(g.t, "else") {
 				s.Has = true
@@ -496,7 +529,7 @@ func (g *c11Gen) call(m *amlObj, methods, datas []c11Sym, depth int) amlExpr {
 // argExpr generates an argument of a method invocation.
 func (g *c11Gen) argExpr(m *amlObj, methods, datas []c11Sym, depth int) *amlExpr {
 	e := g.expr(m, methods, datas, depth)
-	if e.K == "binop" && !g.allowOperatorCallArgs {
+	if (e.K == "binop" || e.K == "unop" || e.K == "term1" || e.K == "index" || e.K == "divide" || e.K == "lnot" || e.K == "cmp") && !g.allowOperatorCallArgs {
 		vlib.For("C11").Exclude("F-C11b operator expression as invocation argument replaced by a constant")
 		return &amlExpr{K: "data", Data: &amlData{K: "byte", V: 0x5a}}
 	}
@@ -504,7 +537,7 @@ func (g *c11Gen) argExpr(m *amlObj, methods, datas []c11Sym, depth int) *amlExpr
 }
 
 func (g *c11Gen) expr(m *amlObj, methods, datas []c11Sym, depth int) *amlExpr {
-	kinds := []string{"const", "const", "local", "arg", "ref", "call", "call", "binop"}
+	kinds := []string{"const", "const", "local", "arg", "ref", "call", "call", "binop", "other"}
 	k := rapid.SampledFrom(kinds).Draw(g.t, "exprk")
 	if depth >= 2 && (k == "call" || k == "binop") {
 		k = "const"
@@ -528,6 +561,27 @@ func (g *c11Gen) expr(m *amlObj, methods, datas []c11Sym, depth int) *amlExpr {
 	case "binop":
 		e := g.binop(m, methods, datas, depth)
 		return &e
+	case "other":
+		g.stats.miscExprs++
+		switch ok := rapid.SampledFrom([]string{"unop", "term1", "index", "divide", "const0", "lnot"}).Draw(g.t, "otherk"); ok {
+		case "unop":
+			op := rapid.SampledFrom([]string{"not", "findsetleftbit", "findsetrightbit", "tointeger", "tohexstring", "todecimalstring", "tobuffer", "frombcd", "tobcd"}).Draw(g.t, "unop")
+			return &amlExpr{K: "unop", Op: op, Args: []amlExpr{*g.expr(m, methods, datas, depth+1)}, Target: g.target(true)}
+		case "term1":
+			op := rapid.SampledFrom([]string{"derefof", "sizeof", "objecttype", "refof"}).Draw(g.t, "term1op")
+			if op == "derefof" {
+				return &amlExpr{K: "term1", Op: op, Args: []amlExpr{*g.expr(m, methods, datas, depth+1)}}
+			}
+			return &amlExpr{K: "term1", Op: op, Args: []amlExpr{*g.target(false)}}
+		case "index":
+			return &amlExpr{K: "index", Args: []amlExpr{*g.expr(m, methods, datas, depth+1), *g.expr(m, methods, datas, depth+1)}, Target: g.target(true)}
+		case "divide":
+			return &amlExpr{K: "divide", Args: []amlExpr{*g.expr(m, methods, datas, depth+1), *g.expr(m, methods, datas, depth+1)}, Target: g.target(true)}
+		case "const0":
+			return &amlExpr{K: "const0", Op: rapid.SampledFrom([]string{"revision", "timer"}).Draw(g.t, "const0")}
+		default:
+			return &amlExpr{K: "lnot", Args: []amlExpr{*g.expr(m, methods, datas, depth+1)}}
+		}
 	}
 	d := g.data(2)
 	for d.K == "buffer" || d.K == "package" {
@@ -615,6 +669,8 @@ func TestVerifC11(t *testing.T) {
 		add(g.stats.tables > 1, "multi-table")
 		add(g.stats.nonMinimalPkg > 0, "non-minimal-pkglength")
 		add(g.stats.deferred > 0, "deferred-block")
+		add(g.stats.miscStmts > 0, "misc-statement(noop/sleep/notify/acquire/...)")
+		add(g.stats.miscExprs > 0, "misc-operator(unary/index/divide/sizeof/...)")
 		add(g.stats.hugePkg > 0, "package-longer-than-1MiB")
 		labels = append(labels, fmt.Sprintf("tables=%d", g.stats.tables))
 		st.Case(c, (g.stats.scopeDirectives > 0 || g.stats.relocated > 0) && g.stats.callsWithArgs > 0, labels...)
